@@ -42,11 +42,22 @@ pub fn real_cfmws(f: &Fill, shape: u16) -> cedt::CxlFixedMemory {
     let wi = (shape & 7) as usize;
     let ways = [Wy::Ways1, Wy::Ways2, Wy::Ways4, Wy::Ways8, Wy::Ways16, Wy::Ways3, Wy::Ways6, Wy::Ways12][wi];
     let m = cedt::CxlFixedMemory::new(f.u64(0), f.u64(1), [A::Modulo, A::ModuloXor][f.e(2, 2)], gran(f.e(3, 7)), ways, f.u16(4));
-    let mut m = real_cfmws_opts(m, shape >> 3);
-    for t in 0..WAYS[wi].1 {
+    let mut m = real_cfmws_opts(m, (shape >> 3) & 0x1f);
+    for t in 0..cfmws_targets(shape) {
         m.add_target(target(f, t));
     }
     m
+}
+/// bit 8 of a CFMWS shape: the window is handed over with one target fewer than its interleave ways declare (the crate
+/// refuses such a window; the operation is offered so that the refusal — or a consistent acceptance — is observed)
+pub const CFMWS_SHORT: u16 = 1 << 8;
+pub fn cfmws_targets(shape: u16) -> usize {
+    let n = WAYS[(shape & 7) as usize].1;
+    if shape & CFMWS_SHORT != 0 {
+        n - 1
+    } else {
+        n
+    }
 }
 fn target(f: &Fill, t: usize) -> [u8; 4] {
     let mut a = f.arr::<4>(5);
@@ -71,7 +82,8 @@ pub fn cedt_ref_entry_q(w: &mut W, op: &Op, rdpas_len: u16) {
             // HBIG(4), window restrictions(2), QTG id(2), targets(4 each)
             // restrictions: bit0 CXL type 2, bit1 CXL type 3, bit2 volatile, bit3 persistent, bit4 fixed device configuration
             let wi = (op.shape & 7) as usize;
-            let n = WAYS[wi].1;
+            // an under-populated window, if it is accepted at all, must describe what it holds
+            let n = cfmws_targets(op.shape);
             w.u8(1).u8(0).u16((36 + 4 * n) as u16).u32(0).u64(f.u64(0)).u64(f.u64(1)).u8(WAYS[wi].0).u8(f.e(2, 2) as u8).u16(0);
             w.u32(f.e(3, 7) as u32).u16((op.shape >> 3) & 0x1f).u16(f.u16(4));
             for t in 0..n {
@@ -125,6 +137,12 @@ impl Table for Cedt {
         for f in fl {
             v.push(Op::new(C_RDPAS, 0, *f));
         }
+        // windows with one target too few (2, 4 and 3 ways), refusable
+        if _h.iter().filter(|o| o.k == C_CFMWS && o.shape & CFMWS_SHORT != 0).count() < 2 {
+            for wy in [1u16, 2, 5] {
+                v.push(Op::new(C_CFMWS, cfmws_shape(wy, 0x1f) | CFMWS_SHORT, fl[0]));
+            }
+        }
         if !_h.iter().any(|o| o.k == C_CXIMS && o.shape >= 31) {
             // records longer than 255 bytes
             v.push(Op::new(C_CXIMS, 32, fl[0]));
@@ -157,6 +175,11 @@ impl Table for Cedt {
             let f = &op.fill;
             match op.k {
                 C_CHBS => t.add_host_bridge(cedt::CxlHostBridge::new(f.u32(0), [cedt::CxlVersion::Cxl1_1, cedt::CxlVersion::Cxl2][f.e(1, 2)], f.u64(2))),
+                C_CFMWS if op.shape & CFMWS_SHORT != 0 => {
+                    if crate::util::catch(|| t.add_fixed_memory(real_cfmws(f, op.shape))).is_err() {
+                        crate::seq::note_refused(i);
+                    }
+                }
                 C_CFMWS => t.add_fixed_memory(real_cfmws(f, op.shape)),
                 C_CXIMS => {
                     let mut x = cedt::XorInterleaveMath::new(gran(f.e(0, 7)));
@@ -337,9 +360,19 @@ pub fn real_notification(f: &Fill, b: u8) -> hest::NotificationStructure {
 pub fn ref_notification(w: &mut W, f: &Fill, b: u8) {
     w.u8(f.e(b, 16) as u8).u8(28).u16(f.u16(b + 1)).u32(f.u32(b + 2)).u32(f.u32(b + 3)).u32(f.u32(b + 4)).u32(f.u32(b + 5)).u32(f.u32(b + 6)).u32(f.u32(b + 7));
 }
+pub fn hest_default_len(shape: u16) -> usize {
+    use core::mem::size_of;
+    match shape % 5 {
+        0 => size_of::<hest::PcieAerDevice>(),
+        1 => size_of::<hest::PcieAerRootPort>(),
+        2 => size_of::<hest::PcieAerBridge>(),
+        3 => size_of::<hest::GenericHardwareSource>(),
+        _ => size_of::<hest::GenericHardwareSourceV2>(),
+    }
+}
 pub fn hest_ref_entry(w: &mut W, op: &Op) {
     if op.k == E_DEFAULT {
-        w.z(44);
+        w.z(hest_default_len(op.shape));
         return;
     }
     let f = &op.fill;
@@ -396,7 +429,13 @@ pub fn hest_ref_entry(w: &mut W, op: &Op) {
 /// shape bits: 1 = per-device (not GLOBAL), 2 = setters applied, 4 = setters applied in reverse order
 pub fn apply_hest(t: &mut hest::HEST, op: &Op) {
     if op.k == E_DEFAULT {
-        return t.add_structure(hest::PcieAerDevice::default());
+        return match op.shape % 5 {
+            0 => t.add_structure(hest::PcieAerDevice::default()),
+            1 => t.add_structure(hest::PcieAerRootPort::default()),
+            2 => t.add_structure(hest::PcieAerBridge::default()),
+            3 => t.add_structure(hest::GenericHardwareSource::default()),
+            _ => t.add_structure(hest::GenericHardwareSourceV2::default()),
+        };
     }
     let f = &op.fill;
     let global = op.shape & 1 == 0;
@@ -529,7 +568,9 @@ impl Table for Hest {
             }
         }
         if level >= 1 && !_h.iter().any(|o| o.k == E_DEFAULT) {
-            v.push(Op::new(E_DEFAULT, 0, 0));
+            for sh in 0..5u16 {
+                v.push(Op::new(E_DEFAULT, sh, 0));
+            }
         }
         v
     }
@@ -610,7 +651,7 @@ impl Table for Hest {
     }
     fn shapes(&self, k: u8) -> Vec<u16> {
         if k == E_DEFAULT {
-            vec![0]
+            (0..5).collect()
         } else if k <= E_BRIDGE {
             vec![3, 0, 1, 2, 7, 6]
         } else {
